@@ -13,7 +13,7 @@ reg("C04",
     reach=["end", "shape_ts", "shape_signal", "shape_tss", "shape_tsd", "shape_tsb", "shape_tsl", "shape_tsw", "shape_tsd_tsb",
            "late_consumer_bound", "idle_cycle", "second_write_same_cycle", "invalidated", "child_only_write", "child_invalidated",
            "whole_value_write", "key_added", "key_erased", "key_resurrected_same_cycle", "noop_remove_ticks", "window_cleared", "window_rolled"],
-    bounds="unit level, no graph: one real TSOutput of each shape in {TS<int>, SIGNAL, TSS<int>, TSD<int,TS<int>>, TSB{a,b}, TSL<TS<int>,2>, TSW<int,2,2>, "
+    bounds="unit level, no graph: one real TSOutput of each shape in {TS<int>, SIGNAL, TSS<int>, TSD<int,TS<int>>, TSB{a,b}, TSL<TS<int>,2>, TSW<int,2,1>, "
            "TSD<int,TSB{a,b}>} (enumerated) with three real TSInput consumers bound to it (passive; active with a notifier; bound one cycle late); NCYC cycles "
            "(NCYC+1 for TS/SIGNAL/TSW) of NOPS producer operations each (BIG_LAST in the last cycle of the two TSD shapes), operations enumerated from "
            "{nothing, write, write twice, child-only write, whole-value write (TSB), invalidate root, invalidate child, add/remove/clear (TSS), set/erase/clear/"
